@@ -36,11 +36,6 @@ import tokenize
 from collections import OrderedDict
 
 sys.path.insert(0, os.path.dirname(os.path.dirname(os.path.abspath(__file__))))
-# the repository's pinned third-party versions (asttokens 3.x, astroid) live in /venv; the overlay
-# venv may shadow some of them with other versions, so /venv's site-packages go first
-_PROD_SITE = "/venv/lib/python3.12/site-packages"
-if os.path.isdir(os.path.join(_PROD_SITE, "asttokens")) and sys.path[0] != _PROD_SITE:
-  sys.path.insert(0, _PROD_SITE)
 from vlib import common
 from vlib.rtc import eng, fn
 
@@ -264,8 +259,9 @@ def run_spec(text, globs, recs):
   return {"valid": True, "x": [outcome(f, r) for r in recs]}
 
 
-EXPECT_OTHERS = {"f": [("v", ("i", r["a"] + 1)) for r in ROWS],
-                 "g": [("v", r["s"].upper()) for r in ROWS], "h": [("v", ("i", 8))]}
+N = eng._norm          # canonical form of an encoded value (whatever tags vlib uses)
+EXPECT_OTHERS = {"f": [("v", N(r["a"] + 1)) for r in ROWS],
+                 "g": [("v", N(r["s"].upper())) for r in ROWS], "h": [("v", N(8))]}
 
 
 def ens_isolated_l1(a, r):
@@ -365,8 +361,8 @@ def call_l2(a):
 def _expect_l2(a0, s0):
   a = [a0] + [r["a"] for r in ROWS[1:]]
   s = [s0] + [r["s"] for r in ROWS[1:]]
-  return {"f": [("i", v + 1) for v in a], "g": [v.upper() for v in s], "a": [("i", v) for v in a],
-          "s": s, "h": [("i", 8), ("i", 10)], "via": [("i", a[0] + 1), ("i", a[1] + 1)]}
+  return {"f": [N(v + 1) for v in a], "g": [N(v.upper()) for v in s], "a": [N(v) for v in a],
+          "s": [N(v) for v in s], "h": [N(8), N(10)], "via": [N(a[0] + 1), N(a[1] + 1)]}
 
 
 def ens_isolated_l2(a, r):
